@@ -10,5 +10,6 @@ CONSTANTS
   Aslrs = {"on", "off"}
   Perturbs = {"0", "85", "170"}
   Invs = {"rel", "abs"}
+  Decoys = {"no", "yes"}
   MaxWalk = 6
   Start = 0
